@@ -50,7 +50,8 @@ ASSUMPTIONS = [
     "processes long enough for nucleation and solidification to complete (a failing run is C13's subject)",
     "Nrep >= 1; how in {sequential, async} (other strings silently do nothing - modelled, not part of the property)",
 ]
-RULE = ("Nrep in {1,2,3,7} x how in {sequential, async} x patched mp.cpu_count in {1,2,16} x four programs of the "
+RULE = ("two 1D vacuum-induced-surface-freezing histories on a tall vial (run twice / raise Nrep on the used object); "
+        "Nrep in {1,2,3,7} x how in {sequential, async} x patched mp.cpu_count in {1,2,16} x four programs of the "
         "homogeneous model, plus two- and three-run histories on one object (mode changes, repeats); thorough adds "
         "1D runs; a case is non-trivial when a results table with >= 1 row was obtained")
 EXPLANATION = ("Lean theorems about the object/mode model + differential check of the results tables of real Snowing "
@@ -60,7 +61,16 @@ PARALLEL = True
 KEYS = {"homogeneous": ["T_nuc", "t_nuc", "t_sol", "t_fr"],
         "spatial_1D": ["T_nuc_min", "T_nuc_kin", "T_nuc_mean", "T_nuc_max", "t_nuc", "t_sol", "t_fr"]}
 
+# configuration variants (custom YAML on top of the defaults)
+VARIANTS = {
+    None: "",
+    # vacuum-induced surface freezing on a tall vial (a 1D run takes ~2 s): the vacuum window
+    # (30-36 min) is what triggers nucleation with program "V"
+    "visf": "vial:\n  geometry:\n    height: 0.08\nVISF:\n  t_vac_start: 0.5\n  t_vac_duration: 0.1\n",
+}
+
 PROGRAMS = {
+    "V": (dict(t_tot=1.4e4, cooling={"rate": 1.0 / 60, "start": 20, "end": -50}), 400),
     "A": (dict(t_tot=3 * 3600, cooling={"rate": 0.5 / 60, "start": 20, "end": -50}), 50),
     "B": (dict(t_tot=2400, cooling={"rate": 3 / 60, "start": 10, "end": -50}), 200),
     "C": (dict(t_tot=1500, cooling={"rate": 6 / 60, "start": 5, "end": -45},
@@ -97,14 +107,16 @@ def _install():
     wrap("random", lambda a: ["draw"])
 
 
-def _config(dim):
-    """custom YAML selecting the model dimensionality (written once under .cache/, git-ignored)"""
+def _config(dim, variant=None):
+    """custom YAML selecting the model dimensionality / configuration (written under .cache/, git-ignored)"""
     d = core.VERIF / ".cache" / "c14"
     d.mkdir(parents=True, exist_ok=True)
-    p = d / f"{dim}.yaml"
-    if not p.exists():
-        tmp = d / f"{dim}.{os.getpid()}.tmp"
-        tmp.write_text(f"snowing_parameters:\n  dimensionality: {dim}\n  configuration: shelf\n")
+    p = d / f"{dim}_{variant or 'shelf'}.yaml"
+    text = (f"snowing_parameters:\n  dimensionality: {dim}\n  configuration: {'VISF' if variant == 'visf' else 'shelf'}\n"
+            + VARIANTS[variant])
+    if not p.exists() or p.read_text() != text:
+        tmp = d / f"{p.name}.{os.getpid()}.tmp"
+        tmp.write_text(text)
         os.replace(tmp, p)
     return str(p)
 
@@ -115,7 +127,7 @@ def _mk(case, nrep):
 
     oc, s0 = PROGRAMS[case["prog"]]
     return Snowing(k={"int": 0, "ext": 0, "s0": s0, "s_sigma_rel": 0}, opcond=OperatingConditions(**oc),
-                   Nrep=nrep, configPath=_config(case["dim"]))
+                   Nrep=nrep, configPath=_config(case["dim"], case.get("cfg")))
 
 
 def _single(S, case, seed):
@@ -184,7 +196,7 @@ def run_impl(case):
         obs = {"raise": None, "out": out, "ref": ref, "ref_evs": ref_evs, "world": _world(w0, nmax)}
         # the single run on the USED object, global generator perturbed: must equal the reference
         np.random.seed(4242)
-        obs["used"] = [_single(S, case, i) for i in range(min(nmax, 2))]
+        obs["used"] = [_single(S, case, i) for i in range(min(nmax, 2 if case["dim"] == "homogeneous" else 1))]
         return obs
     except Exception as e:
         import traceback
@@ -320,7 +332,7 @@ def predicates(case, impl):
 
 def classify(case, impl):
     hows = "+".join((o[1] if o[0] == "run" else f"Nrep={o[1]}") for o in case["ops"] if o[0] in ("run", "setNrep"))
-    return [f"dim={case['dim']}", f"nrep={case['nrep']}", f"cpu={case['cpu']}", f"prog={case['prog']}",
+    return [f"dim={case['dim']}" + (f"/{case['cfg']}" if case.get("cfg") else ""), f"nrep={case['nrep']}", f"cpu={case['cpu']}", f"prog={case['prog']}",
             f"hows={hows}"]
 
 
@@ -333,6 +345,12 @@ def cases(rng, tier):
     quick = tier == "quick"
     R = ["results"]
     progs = ["B", "C", "D"]
+    # 1D model with vacuum-induced surface freezing: repeating a run on one object gives the same numbers, a
+    # single run equals repetition 0 (fresh-object reference runs), also after raising Nrep on the used object
+    yield dict(dim="spatial_1D", cfg="visf", nrep=1, cpu=2, prog="V", ops=[["run", "async"], R, ["run", "async"], R],
+               gstate=3, gdraws=2)
+    yield dict(dim="spatial_1D", cfg="visf", nrep=1, cpu=2, prog="V",
+               ops=[["run", "sequential"], R, ["setNrep", 2], ["run", "sequential"], R], gstate=4, gdraws=1)
     for nrep in (1, 2, 3, 7):
         for cpu in (1, 2, 16):
             for how in ("sequential", "async"):
